@@ -1242,7 +1242,23 @@ func (s *session) inferParamAndResultCols(stmt sql.SQLStmt) ([]sql.ColDescriptor
 
 	ds, ok := stmt.(sql.DataSource)
 	if ok {
-		rr, err := s.db.SQLQueryPrepared(s.ctx, s.tx, ds, nil)
+		tx := s.tx
+
+		if _, modifiesData := stmt.(*sql.ReturningStmt); modifiesData {
+			// Describing a statement must not execute it: the shape of what
+			// DML ... RETURNING answers is discovered in a transaction of
+			// its own, which is cancelled (the statement is executed once,
+			// by the Execute message).
+			dtx, err := s.db.NewSQLTx(s.ctx, sql.DefaultTxOptions())
+			if err != nil {
+				return nil, nil, err
+			}
+			defer dtx.Cancel()
+
+			tx = dtx
+		}
+
+		rr, err := s.db.SQLQueryPrepared(s.ctx, tx, ds, nil)
 		if err != nil {
 			return nil, nil, err
 		}
